@@ -43,7 +43,7 @@ struct Model {
 	std::vector<char> timer_touched; // a timer of f was registered/expired/cancelled since f last ran
 	// statistics for the non-triviality rules
 	bool coalesced = false, kill_true = false, multi_atomic = false, timer_cancelled = false, restarted = false;
-	bool multi_expiry = false, exited_once = false;
+	bool multi_expiry = false, crowd_expiry = false, exited_once = false;
 	std::vector<char> has_exited;
 
 	bool queued(int f) const { return std::find(runq.begin(), runq.end(), f) != runq.end(); }
@@ -145,6 +145,8 @@ struct Model {
 			}
 			if (expired >= 2)
 				multi_expiry = true;
+			if (expired >= 9)
+				crowd_expiry = true;
 			if (runq.empty())
 				current = -1;
 			else {
@@ -185,7 +187,7 @@ struct Run {
 	uint64_t base;
 	// expectation for the dispatch in flight
 	int exp_fibre = -1, exp_seg = 0, got_dispatches = 0;
-	bool in_next = false;
+	bool in_next = false, sleepy = false;
 	std::vector<int64_t> trace; // observations, base-independent
 	bool straddle = false, c03_undrained = false, c03_timers_only = false, c03_after_yield = false;
 
@@ -312,23 +314,35 @@ extern "C" int hf_dispatch(int idx, int seg)
 	// what this dispatch does: drawn now, so the whole case stays a function of the tape
 	unsigned ncalls = R.enumerating ? t.choose(2) : R.profile == 2 ? t.weighted({ 2, 5, 2, 1 }) : t.weighted({ 4, 3, 2, 1 });
 	bool timeout_pending = false;
+	// "sleepy" histories (crowds only): most dispatches just go to sleep for a short while, so that many fibres
+	// are asleep together and expire together
+	bool nap = R.sleepy && t.weighted({ 1, 3 }) == 1;
+	if (nap)
+		ncalls = 1;
 	for (unsigned k = 0; k < ncalls && !R.stop && !c.failed; k++) {
-		unsigned kind = R.enumerating ? t.choose(4)
+		unsigned kind = nap ? 3 : R.enumerating ? t.choose(4)
 					      : (R.profile == 2 ? t.weighted({ 2, 1, 1, 9 }) : t.weighted({ 3, 3, 2, 3 }));
-		int g = (int)t.choose(m.nf);
+		int g = nap ? 0 : (int)t.choose(m.nf);
 		switch (kind) {
 		case 0: R.call_run(g, ""); break;
 		case 1: R.call_run_atomic(g, ""); break;
 		case 2: R.call_kill(g, ""); break;
 		case 3: {
-			if (timeout_pending) { // scope: at most one unsatisfied fibre_timeout per dispatch
+			// scope: at most one unsatisfied fibre_timeout per dispatch (a second one would queue the fibre twice);
+			// further calls in the same dispatch ask for a time that has been reached, as in
+			// PT_WAIT_UNTIL(fibre_timeout(a) || fibre_timeout(b)) - they must return true and change nothing
+			if (timeout_pending && !c.feat(2)) {
 				c.cls("skipped-op");
 				break;
 			}
 			uint64_t due;
-			bool past = !R.enumerating && t.weighted({ 7, 1 }) == 1;
+			bool past = timeout_pending || (!R.enumerating && t.weighted({ 7, 1 }) == 1);
+			if (timeout_pending)
+				c.cls("satisfied-timeout-after-an-armed-one");
 			if (past)
 				due = m.now - t.choose(4);
+			else if (nap)
+				due = m.now + 1 + t.choose(6);
 			else
 				due = m.now + R.gen_delta();
 			int r = af_timeout((uint32_t)due);
@@ -344,7 +358,7 @@ extern "C" int hf_dispatch(int idx, int seg)
 		}
 		}
 	}
-	int rc = (int)(R.enumerating ? t.choose(4) : R.profile == 2 ? t.weighted({ 8, 2, 1, 1 }) : t.weighted({ 4, 4, 2, 1 }));
+	int rc = (int)(nap ? 0 : R.enumerating ? t.choose(4) : R.profile == 2 ? t.weighted({ 8, 2, 1, 1 }) : t.weighted({ 4, 4, 2, 1 }));
 	static const int MAP[] = { WAITING, YIELDED, EXITED, FAILED };
 	rc = MAP[rc];
 	c.note("  returns %s", RCN[rc]);
@@ -368,6 +382,12 @@ static void run_history(Ctx &c, Tape &t, int oracle, bool force_base0, std::vect
 	m.nf = t.enumerating ? (int)c.param("fibres", 3) : 1 + (int)t.choose(6);
 	if (R.profile == 2 && m.nf < 3 && !t.enumerating)
 		m.nf += 3; // timer-heavy: several sleepers
+	bool crowd = !t.enumerating && c.feat(2) && t.weighted({ 7, 1 }) == 1;
+	if (crowd) { // more fibres than the request queue has slots: nine or more can be asleep / expire / be queued at once
+		m.nf = 9 + (int)t.choose(6);
+		c.cls("nine-or-more-fibres");
+		R.sleepy = t.flip();
+	}
 	m.seg.assign(m.nf, 0);
 	m.timer_touched.assign(m.nf, 0);
 	m.has_exited.assign(m.nf, 0);
@@ -390,14 +410,24 @@ static void run_history(Ctx &c, Tape &t, int oracle, bool force_base0, std::vect
 	R.base = base;
 	m.now = base;
 	long maxops = c.param("maxops", 40);
-	long nops = t.enumerating ? c.param("ops", 4) : t.range(0, maxops);
+	long nops = t.enumerating ? c.param("ops", 4) : t.range(0, crowd ? 3 * maxops : maxops);
 	c.note("%d fibres, time base 0x%08x, %ld external ops", m.nf, (uint32_t)base, nops);
+	if (R.sleepy) // the whole crowd is made runnable first
+		for (int f = 0; f < m.nf && !R.stop && !c.failed; f++)
+			R.call_run(f, "external ");
 	for (long i = 0; i < nops && !R.stop && !c.failed; i++) {
 		unsigned kind = t.enumerating ? t.choose(4) : R.profile == 2 ? t.weighted({ 6, 5, 2, 1 }) : t.weighted({ 6, 2, 3, 1 });
 		if (kind == 0) {
 			uint64_t dt;
 			if (t.enumerating)
 				dt = t.choose(2);
+			else if (R.sleepy) // time mostly stands still while the crowd goes to sleep, then jumps past all of them
+				switch (t.weighted({ 6, 2, 2 })) {
+				default:
+				case 0: dt = 0; break;
+				case 1: dt = t.choose(8); break;
+				case 2: dt = 7 + t.choose(10); break;
+				}
 			else
 				switch (t.weighted({ 8, 2, 1 })) {
 				default:
@@ -473,6 +503,7 @@ static void run_history(Ctx &c, Tape &t, int oracle, bool force_base0, std::vect
 	if (m.timer_cancelled) c.cls("timer-cancelled-by-run-or-kill");
 	if (m.restarted) c.cls("restart-after-exit");
 	if (m.multi_expiry) c.cls("two-or-more-sleepers-expire-in-one-pass");
+	if (m.crowd_expiry) c.cls("nine-or-more-sleepers-expire-in-one-pass");
 	if (R.straddle) c.cls("window-straddles-a-wrap-point");
 	if (R.c03_undrained) c.cls("returns-with-undrained-atomic-request");
 	if (R.c03_timers_only) c.cls("returns-with-only-timers-pending");
